@@ -153,7 +153,11 @@ impl Cell {
             return None;
         }
 
-        if cursor.col.saturating_add(cell_size.width) <= max_width {
+        if cursor
+            .col
+            .checked_add(cell_size.width)
+            .is_some_and(|end| end <= max_width)
+        {
             // enough space to put cell
             let pos = *cursor;
             cursor.col += cell_size.width;
